@@ -39,56 +39,61 @@ static int read_varint(const uint8_t* data, size_t size, size_t* pos, uint32_t* 
 }
 
 static bool start_new_run(carquet_rle_decoder_t* dec) {
-    if (dec->pos >= dec->size) {
-        return false;
-    }
-
-    /* Read header */
-    uint32_t header;
-    if (read_varint(dec->data, dec->size, &dec->pos, &header) < 0) {
-        dec->status = CARQUET_ERROR_INVALID_RLE;
-        return false;
-    }
-
-    if ((header & 1) == 0) {
-        /* RLE run */
-        dec->in_rle_run = true;
-        dec->run_remaining = (int64_t)(header >> 1);
-
-        if (dec->run_remaining == 0) {
-            /* Empty run, try next */
-            return start_new_run(dec);
+    /* Loop (not recursion) over empty runs: a long sequence of zero-length
+     * runs must not grow the stack. */
+    for (;;) {
+        if (dec->pos >= dec->size) {
+            return false;
         }
 
-        /* Read the repeated value (ceil(bit_width/8) bytes) */
-        int value_bytes = (dec->bit_width + 7) / 8;
-        if (dec->pos + (size_t)value_bytes > dec->size) {
+        /* Read header */
+        uint32_t header;
+        if (read_varint(dec->data, dec->size, &dec->pos, &header) < 0) {
             dec->status = CARQUET_ERROR_INVALID_RLE;
             return false;
         }
 
-        dec->rle_value = 0;
-        for (int i = 0; i < value_bytes; i++) {
-            dec->rle_value |= (uint32_t)dec->data[dec->pos++] << (i * 8);
+        if ((header & 1) == 0) {
+            /* RLE run */
+            dec->in_rle_run = true;
+            dec->run_remaining = (int64_t)(header >> 1);
+
+            /* Read the repeated value (ceil(bit_width/8) bytes); it is present
+             * even when the run length is zero */
+            int value_bytes = (dec->bit_width + 7) / 8;
+            if (dec->pos + (size_t)value_bytes > dec->size) {
+                dec->status = CARQUET_ERROR_INVALID_RLE;
+                return false;
+            }
+
+            dec->rle_value = 0;
+            for (int i = 0; i < value_bytes; i++) {
+                dec->rle_value |= (uint32_t)dec->data[dec->pos++] << (i * 8);
+            }
+            dec->rle_value &= dec->value_mask;
+
+            if (dec->run_remaining == 0) {
+                /* Empty run, try next */
+                continue;
+            }
+
+        } else {
+            /* Bit-packed run */
+            dec->in_rle_run = false;
+            int num_groups = (int)(header >> 1);  /* Number of 8-value groups */
+            dec->run_remaining = (int64_t)num_groups * 8;
+
+            if (dec->run_remaining == 0) {
+                continue;
+            }
+
+            /* We'll decode 8 values at a time into the buffer */
+            dec->bitpack_pos = 0;
+            dec->bitpack_count = 0;
         }
-        dec->rle_value &= dec->value_mask;
 
-    } else {
-        /* Bit-packed run */
-        dec->in_rle_run = false;
-        int num_groups = (int)(header >> 1);  /* Number of 8-value groups */
-        dec->run_remaining = (int64_t)num_groups * 8;
-
-        if (dec->run_remaining == 0) {
-            return start_new_run(dec);
-        }
-
-        /* We'll decode 8 values at a time into the buffer */
-        dec->bitpack_pos = 0;
-        dec->bitpack_count = 0;
+        return true;
     }
-
-    return true;
 }
 
 static bool fill_bitpack_buffer(carquet_rle_decoder_t* dec) {
@@ -486,16 +491,16 @@ int64_t carquet_rle_decode_levels(
         if ((header & 1) == 0) {
             /* RLE run: fill output with repeated value */
             int64_t run_length = (int64_t)(header >> 1);
-            if (run_length == 0) continue;
 
             if (pos + (size_t)value_bytes > input_size) break;
 
-            /* Read the repeated value */
+            /* Read the repeated value (present even for an empty run) */
             uint32_t rle_value = 0;
             for (int i = 0; i < value_bytes; i++) {
                 rle_value |= (uint32_t)input[pos++] << (i * 8);
             }
             rle_value &= value_mask;
+            if (run_length == 0) continue;
             int16_t val16 = (int16_t)rle_value;
 
             /* Fill output in bulk */
